@@ -25,7 +25,10 @@ parse(render(x)) read back through the public accessors deep-equals the tree (co
 and equals x by the library's ==; render(parse(render(x))) == render(x); and the full \
 GetInterfaceDescription exchange - InterfaceDescription::from(&x) sent with send_reply over a \
 loop-back transport, received with receive_reply::<InterfaceDescription, Error> and .parse()d - \
-yields the same tree. The standard org.varlink.service description is included. Non-trivial = a \
+yields the same tree; for the borrowed form additionally with every library piece in place: the \
+proxy's get_interface_description writes the call, Server::run decodes it with varlink_service::Method \
+and a service answers with varlink_service::Reply::InterfaceDescription, the reply reaches the proxy \
+method in two pieces. The standard org.varlink.service description is included. Non-trivial = a \
 comment below interface level or type depth >= 2; distinct by hash of (tree, form).";
 
 const SIG_KNOWN: &str = "enum-variant-comment-render";
@@ -223,6 +226,93 @@ pub fn round_trip(x: &z::Interface<'_>, want: &Iface) -> CaseResult {
     Ok(())
 }
 
+/// A service that answers `org.varlink.service.GetInterfaceDescription` for one interface with the
+/// library's own reply type.
+struct DescService {
+    iface: &'static z::Interface<'static>,
+}
+
+impl zlink_core::Service for DescService {
+    type MethodCall<'de> = varlink_service::Method<'de>;
+    type ReplyParams<'ser> = varlink_service::Reply<'ser>;
+    type ReplyStreamParams = ();
+    type ReplyStream = futures_util::stream::Empty<Reply<()>>;
+    type ReplyError<'ser> = varlink_service::Error;
+
+    async fn handle<'ser>(
+        &'ser mut self,
+        call: zlink_core::Call<Self::MethodCall<'_>>,
+    ) -> zlink_core::service::MethodReply<Self::ReplyParams<'ser>, Self::ReplyStream, Self::ReplyError<'ser>> {
+        use zlink_core::service::MethodReply;
+        match call.method() {
+            varlink_service::Method::GetInterfaceDescription { interface } if *interface == self.iface.name() => {
+                MethodReply::Single(Some(varlink_service::Reply::InterfaceDescription(InterfaceDescription::from(self.iface))))
+            }
+            varlink_service::Method::GetInterfaceDescription { interface } => {
+                MethodReply::Error(varlink_service::Error::InterfaceNotFound { interface: interface.to_string() })
+            }
+            varlink_service::Method::GetInfo => MethodReply::Error(varlink_service::Error::MethodNotImplemented { method: "org.varlink.service.GetInfo".into() }),
+        }
+    }
+}
+
+/// The standard exchange with every library piece in place: the client's proxy method writes the
+/// call, `Server::run` decodes it with the library's method type and lets a service answer with
+/// the library's reply type, the reply bytes reach the client's proxy method in two pieces, and what
+/// the client parses must be the tree the service described.
+pub fn exchange_via_server(x: &'static z::Interface<'static>, want: &Iface) -> CaseResult {
+    use varlink_service::Proxy;
+    use vcommon::{exec::poll_once, sim::SimListener};
+    let name = x.name().to_string();
+    // 1. the call as the proxy writes it
+    let (sock, h) = SimSocket::new();
+    let mut probe = Connection::new(sock);
+    {
+        let fut = probe.get_interface_description(&name);
+        let mut fut = std::pin::pin!(fut);
+        let _ = poll_once(fut.as_mut());
+    }
+    let call_bytes = h.written();
+    if call_bytes.is_empty() {
+        return Err(Fail::new("exchange-call-not-sent", "the proxy method wrote nothing".to_string()));
+    }
+    // 2. through the server
+    let listener = SimListener::new();
+    let sh = listener.connect();
+    sh.push_data(&call_bytes);
+    let server = zlink_core::Server::new(listener.clone(), DescService { iface: x });
+    let reply_bytes = {
+        let mut fut = Box::pin(server.run());
+        for _ in 0..16 {
+            if let std::task::Poll::Ready(r) = poll_once(fut.as_mut()) {
+                return Err(Fail::new("exchange-server-stopped", format!("Server::run returned {r:?}")));
+            }
+        }
+        sh.written()
+    };
+    if reply_bytes.is_empty() {
+        return Err(Fail::new("exchange-no-reply", format!("the server wrote nothing for {:?}", String::from_utf8_lossy(&call_bytes))));
+    }
+    // 3. back to the client's proxy method, in two pieces
+    let cut = reply_bytes.len() / 2;
+    let (sock2, _h2) = SimSocket::with_script([ReadEv::Data(reply_bytes[..cut].to_vec()), ReadEv::Pending, ReadEv::Data(reply_bytes[cut..].to_vec())]);
+    let mut client = Connection::new(sock2);
+    let desc = match run_until_ready(client.get_interface_description(&name), 64) {
+        Some(Ok(Ok(d))) => d,
+        other => {
+            return Err(Fail::new(
+                "exchange-receive-failed",
+                format!("the proxy method gave {:?} for the server's reply {:?}", other.map(|r| r.map(|r| r.map(|_| ()))), truncate(&String::from_utf8_lossy(&reply_bytes), 300)),
+            ))
+        }
+    };
+    let parsed = desc.parse().map_err(|e| Fail::new("exchange-parse-failed", format!("client-side parse failed: {e}; raw {:?}", desc.as_raw().map(|s| truncate(s, 300)))))?;
+    if let Some(diff) = first_diff(&iface_of(&parsed), want) {
+        return Err(Fail::new("exchange-differs", format!("through Server::run and the proxy the client parsed a different description: {diff}")));
+    }
+    Ok(())
+}
+
 /// Does the tree contain an enum (custom or inline) with >= 2 variants of which one is commented?
 pub fn known_trigger(t: &Iface) -> bool {
     fn vs(v: &[Var]) -> bool {
@@ -248,7 +338,11 @@ fn check_tree(tree: &Iface, form: Form, layout: &Layout) -> CaseResult {
     let want = tree.grouped();
     match form {
         Form::Owned => round_trip(&build_owned(tree), &want),
-        Form::Borrowed => round_trip(&build_borrowed(tree), &want),
+        Form::Borrowed => {
+            let x: &'static z::Interface<'static> = Box::leak(Box::new(build_borrowed(tree)));
+            round_trip(x, &want)?;
+            exchange_via_server(x, &want)
+        }
         Form::Parsed => {
             let text = render(tree, layout);
             let p = z::Interface::try_from(text.as_str()).map_err(|e| Fail::new("valid-text-rejected", format!("{:?}: {e}", truncate(&text, 300))))?;
